@@ -10,12 +10,14 @@ FAMILIES = {
     "values": "harness.check_values",
     "card": "harness.check_card",
     "paths": "harness.check_paths",
+    "clone": "harness.check_clone",
 }
 # property -> families whose judges print verdicts for it
 PROPS = {
-    "C03": ["tree"], "C04": ["tree"], "C05": ["values"], "C06": ["tree", "values", "card"],
+    "C03": ["tree", "clone"], "C04": ["tree", "clone"], "C05": ["values"], "C06": ["tree", "values", "card"],
     "C09": ["card"],
     "C14": ["paths"],
+    "C11": ["clone", "values"],
 }
 EXPLAIN = {}
 
